@@ -7,7 +7,66 @@ CONSTANTS
   CCSet <- NoCCs
   Actors <- ActorsOne
   Bound <- BoundTiny
-INVARIANT AllInvariants
+INVARIANTS
+  C01_CommittedStable
+  C01_AppliedAgree
+  C01_ApplyAgree
+  C02_OneLeaderPerTerm
+  C02_OneVotePerTerm
+  C02_VoteOnlyUpToDate
+  C02_LeaderHasQuorum
+  C02_RestartKeepsVote
+  C03_WellFormed
+  C03_LogMatching
+  C04_LeaderComplete
+  C04_NoOverwrite
+  C05_VoteDurable
+  C05_AckDurable
+  C05_SelfAckDurable
+  C05_RestartFromDisk
+  C06_CommitWithinLog
+  C06_LeaderCommitBacked
+  C06_FollowerCommit
+  C07_DurableMono
+  C07_ExposedMono
+  C07_VolatileMono
+  C07_RestartFromDisk
+  C07_NoActBelowStart
+  C08_Contiguous
+  C08_WithinCommit
+  C08_StableOnlyAsync
+  C08_NotDuringSnap
+  C08_SnapshotForward
+  C09_NoRollback
+  C09_ExactBase
+  C09_IgnoreStale
+  C09_NoFork
+  C09_SnapPrefixCommitted
+  C10_ConfigIsFold
+  C10_OnePending
+  C10_NoCampaignUnapplied
+  C10_AutoLeave
+  C10_JointNeedsBoth
+  C11_ReadIndexFresh
+  C11_ServedByRealLeader
+  C14_NoPanic
+  C15_Converged
+  C16_MsgSizeBound
+  C16_InflightBound
+  C16_NoAppendDuringSnapshot
+  C16_UncommittedBound
+  C16_DropIffOver
+  C17_PreVoteBeforeTerm
+  C17_PreVoteNoStateChange
+  C17_LeaseHolds
+  C17_CheckQuorumStepDown
+  C19_SameOutputs
+  C20_NothingInvented
+  C20_AtMostOncePerDelivery
+  C20_ProposedAtLeaderOnce
+  C20_QueuedIntact
+  C20_ForwardIntact
+  C20_DroppedMeansDropped
 CONSTRAINT StateBound
 VIEW View
 CHECK_DEADLOCK FALSE
